@@ -459,6 +459,73 @@ def parse_callback_classes(repo):
     return out
 
 
+# ----------------------------------------------------------------------------- wrappers
+WRAPPER_FILE = "include/tapkee/neighbors/neighbors.hpp"
+WRAPPER_NAMES = ("PlainDistance", "KernelDistance")
+
+
+def parse_wrappers(repo):
+    """PlainDistance / KernelDistance: (wrapper, [(member function, [member functions called on the wrapped callback])]).
+    The wrapped callback must be stored by the constructor in ONE field and used only as `field.member(...)`."""
+    classes, _ = find_classes(strip_comments(read(repo, WRAPPER_FILE)))
+    out = []
+    for want in WRAPPER_NAMES:
+        cs = [c for c in classes if c[0] == want]
+        if len(cs) != 1:
+            raise TranslateError("wrapper %s not found in %s" % (want, WRAPPER_FILE))
+        body = cs[0][2]
+        field = None
+        members = []
+        fields = []
+        for d in split_decls(body):
+            if d[0] == "@access":
+                continue
+            if d[-1] == ";":
+                if d[0] != "typedef" and "(" not in d:
+                    fields.append(d[-2])
+                continue
+            t = skip_template_header(d)
+            k = t.index("(")
+            if t[k - 1] == want:                      # constructor: W(const Callback& cb) : field(cb) { }
+                close = match(t, k, "(", ")")
+                ps = param_names(t[k + 1:close], want)
+                rest = " ".join(t[close + 1:])
+                m = re.match(r": (\w+) \( (\w+) \) \{ \}$", rest)
+                if len(ps) != 1 or not m or m.group(2) != ps[0]:
+                    raise TranslateError("constructor of %s does not just store its argument" % want)
+                field = m.group(1)
+                continue
+            if t[k - 1] == "operator":
+                name = "operator()"
+                k = t.index("(", k + 2)
+            else:
+                name = t[k - 1]
+            close = match(t, k, "(", ")")
+            j = close + 1
+            while t[j] != "{":
+                j += 1
+            e = match(t, j, "{", "}")
+            members.append((name, t[j + 1:e]))
+        if field is None or fields != [field]:
+            raise TranslateError("%s must have exactly one data member holding the callback (has %s)" % (want, fields))
+        table = []
+        for name, fb in members:
+            called = []
+            for i, x in enumerate(fb):
+                if x == field:
+                    if i + 3 < len(fb) and fb[i + 1] == "." and is_ident(fb[i + 2]) and fb[i + 3] == "(":
+                        if fb[i + 2] not in called:
+                            called.append(fb[i + 2])
+                    elif i + 1 < len(fb) and fb[i + 1] == "(":
+                        if "()" not in called:
+                            called.append("()")
+                    else:
+                        raise TranslateError("%s::%s uses the wrapped callback other than by calling a member" % (want, name))
+            table.append((name, called))
+        out.append((want, table))
+    return out
+
+
 # ----------------------------------------------------------------------------- dereference sites
 DEREF_GLOBS = ["include/tapkee/routines/*.hpp", "include/tapkee/utils/features.hpp", "include/tapkee/neighbors/*.hpp",
                "include/tapkee/methods/*.hpp"]
@@ -561,10 +628,11 @@ def translate(repo):
         if name not in [m for m, _ in methods]:
             raise TranslateError("implementation block for undeclared method " + name)
     cbs = parse_callback_classes(repo)
+    wrappers = parse_wrappers(repo)
     derefs, deref_files = parse_derefs(repo)
     return {"trait_fields": fields, "traits": traits, "method_inits": inits, "guards": guards,
             "base_refs": guarded, "base_unguarded": unguarded, "methods": mds, "dispatched": dispatched,
-            "callback_classes": cbs, "derefs": derefs, "deref_files": deref_files}
+            "callback_classes": cbs, "wrappers": wrappers, "derefs": derefs, "deref_files": deref_files}
 
 
 def render(t):
@@ -595,6 +663,8 @@ def render(t):
     out.append("  u_callback_classes := [\n" + ";\n".join(
         "    (%s, %s, %s)" % (q(n), b(mk), coq_list(["(%s, %s)" % (q(f), b(th)) for f, th in ms_]))
         for n, mk, ms_ in t["callback_classes"]) + "];")
+    out.append("  u_wrappers := " + coq_list(
+        ["(%s, %s)" % (q(w), coq_list(["(%s, %s)" % (q(mn), coq_strs(cs)) for mn, cs in tb])) for w, tb in t["wrappers"]]) + ";")
     out.append("  u_deref_files := %s;" % coq_strs([f.replace("include/tapkee/", "") for f in t["deref_files"]]))
     out.append("  u_derefs := [\n" + ";\n".join(
         "    (%s, %s, %s)" % (q(f), q(sn), b(ok)) for f, sn, ok, _ in t["derefs"]) + "] |}.")
@@ -624,6 +694,8 @@ MUTATIONS = [
      "dense_matrix_from_features uses the dereferenced iterator as a column index"),
     ("include/tapkee/routines/spe.hpp", r"callback\.distance\(\*i_iter, \*j_iter\)", "callback.distance(*i_iter, *j_iter) + 0 * (*i_iter)",
      "SPE does arithmetic on a dereferenced iterator"),
+    ("include/tapkee/neighbors/neighbors.hpp", r"return callback\.distance\(\*l, \*r\);\s*\}\s*typedef DistanceType type;",
+     "return callback.kernel(*l, *r);\n    }\n    typedef DistanceType type;", "PlainDistance::distance asks the wrapped callback for kernel()"),
     ("include/tapkee/callbacks/dummy_callbacks.hpp", r"template <class Data> struct dummy_kernel_callback\s*\{\s*typedef int dummy;",
      "template <class Data> struct dummy_kernel_callback\n{\n", "dummy_kernel_callback loses its dummy marker"),
     ("include/tapkee/callbacks/eigen_callbacks.hpp", r"struct eigen_distance_callback\s*\{", "struct eigen_distance_callback\n{\n    typedef int dummy;",
@@ -642,7 +714,7 @@ def self_test(repo):
     files = [DEFS, METHODS, BASE] + [os.path.relpath(p, repo) for p in glob.glob(os.path.join(repo, METHOD_DIR, "*.hpp"))]
     for g in ROUTINE_GLOBS + DEREF_GLOBS:
         files += [os.path.relpath(p, repo) for p in glob.glob(os.path.join(repo, g))]
-    files += CALLBACK_FILES + [TRAITS]
+    files += CALLBACK_FILES + [TRAITS, WRAPPER_FILE]
     for rel, pat, rep, desc in MUTATIONS:
         tmp = tempfile.mkdtemp(prefix="t_use_selftest_")
         try:
